@@ -312,6 +312,9 @@ def clip_stage_diff(run, model, rec, nonrep, case, e, rng):
                  model={"y": [float(yl[k[0], 0]), float(yu[k[0], 0])], "z": [float(zl[k[0], 0]), float(zu[k[0], 0])]}, election=e.to_json())
         return False
     units = [i for i in range(n) if w[i, 0] > 0 and wz[i, 0] != 0]
+    import random as _random
+
+    rng = _random.Random(f"clip-{n}-{B}-{getattr(run, 'seed', 0)}")      # own generator: the stream that called us keeps its cases
     rng.shuffle(units)
     ops, idx = [], []
     for i in units[:6]:
